@@ -21,6 +21,7 @@ func c07(c *eng.Ctx, r *eng.Report) {
 		"R7.3 for wrapped Ethereum transactions the sender is recovered with an EIP-155 signer built from this chain's id at the given height, the decoded payload is the one converted, every field ConvertTx fills is compared by compareTx, and nil is returned only when the comparison holds; " +
 		"R7.4 every Transaction field read during execution is bound by GenHash or listed in the reviewed exclusion table; " +
 		"R7.5 every call of TransactionPool.AddTransaction is dominated by a successful VerifyTransaction of the same transaction (one-level inlining through sendTransaction). " +
+		"R7.9 a protected payload has one signature: EIP155Signer.Sender passes recoverPlain the constant true as its homestead flag, so S > N/2 is rejected — without it the twin (S → N−S, V parity flipped) of every accepted wrapped transaction is accepted too; " +
 		"R7.8 a protected payload is recovered only for this chain: in EIP155Signer.Sender the call that recovers the sender is reached only across the edge on which the chain id derived from V compared equal (big.Int.Cmp == 0) to the signer's — a test on the remainder of V after subtracting the chain id (its bit length, say) ignores the sign, and V = 2·chainId − 19 then recovers the honest sender from the same r, s: a second accepted transaction nobody signed; " +
 		"R7.7 a signature has one accepted encoding: the signature check does not rewrite the recovery byte it is given (secp256k1.checkSignature maps 27..30 onto 0..3 in place, so v and v+27 are both accepted — finding F27, recorded; any further alias is reported separately); " +
 		"R7.6 whether a transaction is authentic is a function of the transaction and the height: no cache, package-variable store or unreviewed shared object in the cone of VerifyTransaction and its steps (scratch pools that are Reset() by their taker and the type-keyed RLP codec table excepted). " +
@@ -725,6 +726,7 @@ func c07OneSignatureEncoding(c *eng.Ctx, r *eng.Report) {
 func c07ChainIdBeforeRecover(c *eng.Ctx, r *eng.Report) {
 	const rule = "R7.8"
 	r.Min(rule, 1)
+	r.Min("R7.9", 1)
 	fn := c.Func("eth_tx", "(EIP155Signer).Sender")
 	if fn == nil {
 		fn = c.Func("eth_tx", "EIP155Signer.Sender")
@@ -737,7 +739,28 @@ func c07ChainIdBeforeRecover(c *eng.Ctx, r *eng.Report) {
 		if !strings.HasSuffix(s.Name(), "eth_tx.recoverPlain") {
 			continue
 		}
+		// the unprotected (pre-EIP-155) path has no chain id to compare: finding F25 is about that path, not this rule
+		unprotected := false
+		for _, cd := range eng.CondsAt(s.Instr) {
+			d := eng.Desc(cd.V)
+			if strings.Contains(d, ".Protected(") && ((!cd.True && !strings.HasPrefix(d, "!")) || (cd.True && strings.HasPrefix(d, "!"))) {
+				unprotected = true
+			}
+			if u, isU := cd.V.(*ssa.UnOp); isU && u.Op == token.NOT && strings.Contains(eng.Desc(u.X), ".Protected(") && cd.True {
+				unprotected = true
+			}
+		}
+		if unprotected {
+			continue
+		}
 		n++
+		// the low-S rule applies to protected payloads: the homestead flag is the constant true
+		args := s.Common().Args
+		if k, isK := args[len(args)-1].(*ssa.Const); !isK || k.Value == nil || k.Value.String() != "true" {
+			r.Fail("R7.9", "eip155:low-s", c.Pos(s.Pos()), "EIP155Signer.Sender recovers a protected payload with the homestead flag "+eng.Desc(args[len(args)-1])+" instead of the constant true: the S <= N/2 test is skipped, so anyone who sees a signed wrapped transaction can set S to N−S and flip the parity of V — a different payload with a different hash that VerifyTransaction admits for the same sender, nonce and content")
+		} else {
+			r.Pass("R7.9", "eip155:low-s", c.Pos(s.Pos()), "homestead flag is the constant true")
+		}
 		ok := false
 		for _, cd := range eng.CondsAt(s.Instr) {
 			m, isM := cd.Cmp()
